@@ -3,6 +3,7 @@
 From Coq Require Import ZArith List Permutation.
 From FV Require Import Base.Res Base.Bytes Base.GoSem Model.Headers
   Proofs.BytesProofs Proofs.HeadersProofs Proofs.HeadersPyProofs Proofs.HeadersMapProofs.
+From FV Require Gen.Consts Proofs.ConstsAgree.
 Import ListNotations.
 Open Scope Z_scope.
 
@@ -87,6 +88,18 @@ Proof.
   rewrite E in S. exact S.
 Qed.
 Print Assumptions c04_stream_accepts_only_marshal.
+
+(** the header names and the version byte of the model are the constants of lib/go as they are now
+    (Gen/Consts.v is regenerated from the source on every build) *)
+Theorem c04_constants_are_the_sources :
+  (forall m, hd 255 (Headers.marshal m) = Consts.go_protocolV0)
+  /\ Receivers.opid_header = Consts.go_opIDHeader /\ Context.cid_header = Consts.go_cidHeader
+  /\ Context.timeout_header = Consts.go_timeoutHeader.
+Proof.
+  split; [exact ConstsAgree.protocol_version_agrees|].
+  destruct ConstsAgree.header_names_agree as (A & B & C & _). auto.
+Qed.
+Print Assumptions c04_constants_are_the_sources.
 
 (** non-vacuity: empty strings, multi-byte UTF-8, several headers, adjacent payload *)
 Example c04_nonvacuous :
